@@ -90,6 +90,9 @@ impl Property for C10Prop {
         if case["kind"].as_str() == Some("membership") {
             return check_membership(case, stats);
         }
+        if case["kind"].as_str() == Some("default") {
+            return check_default(case, stats);
+        }
         let (ta, tb, tc) = (
             case["a"].as_str().unwrap_or("int"),
             case["b"].as_str().unwrap_or("int"),
@@ -212,8 +215,8 @@ fn catalogue_values() -> &'static Vec<(&'static str, simplesl::variable::Variabl
     V.get_or_init(|| {
         let mut out: Vec<(&'static str, simplesl::variable::Variable, Ty)> = vec![];
         // (beyond the catalogue: values whose types differ from catalogue types in a component only)
-        const MORE: [&str; 16] = [
-            "struct{a := \"s\"}", "struct{a := 2.5}", "struct{a := 1, b := 2}", "struct{b := 1}", "struct{a := [1]}", "[1, \"s\"]", "[2.5, true]", "[1, 2.5]", "[[1], [\"s\"]]",
+        const MORE: [&str; 18] = [
+            "struct{a := \"s\"}", "struct{a := 2.5}", "struct{a := 1, b := 2}", "struct{b := 1}", "struct{a := [1]}", "struct{a := 1, c := 2}", "struct{b := 1, c := 2, d := 3}", "[1, \"s\"]", "[2.5, true]", "[1, 2.5]", "[[1], [\"s\"]]",
             "(1, \"s\")", "(1, 2, 3)", "(2.5, 1)", "mut int|string 1", "mut float|bool true", "(x: int) -> int { return x; }", "(x: string) -> int { return 1; }",
         ];
         let more = crate::genr::matrix::Operand { ty: "any", values: &MORE };
@@ -253,7 +256,9 @@ fn check_membership(case: &Json, stats: &mut Stats) -> Verdict {
         0 => format!("if v: {tt} = x {{ return 1; }} return 0;"),
         1 => format!("return match x {{ v: {tt} => 1, => 0, }};"),
         2 => format!("r := mut 0; while v: {tt} = x {{ r = 1; break; }}; return *r;"),
-        _ => format!("if v: {tt} = x {{ return 1; }} else {{ return 0; }}"),
+        3 => format!("if v: {tt} = x {{ return 1; }} else {{ return 0; }}"),
+        // a type filter keeps exactly the elements that belong to the type
+        _ => format!("return std.len([x]~ ? {tt} $]);"),
     };
     let calls: Vec<String> = texts.iter().map(|v| format!("f({v})")).collect();
     let text = format!("f := (x: {ts}) -> int {{ {body} }}; [{}]", calls.join(", "));
@@ -279,6 +284,53 @@ fn check_membership(case: &Json, stats: &mut Stats) -> Verdict {
     }
     stats.sample(6, || json!({"program": text, "answers": want}));
     Verdict::Pass
+}
+
+/// the value the library makes for a type when it needs one (the filler of exhausted iterators, the
+/// start value of `it ? T`) belongs to the type: by the harness's membership test, by `matches` on its
+/// run-time type, and by the language's own test on the filler of an exhausted filter
+fn check_default(case: &Json, stats: &mut Stats) -> Verdict {
+    let tt = case["t"].as_str().unwrap_or("int");
+    let (Some(t), Some(h)) = (real(tt), Ty::parse(tt)) else {
+        return Verdict::Discard("type text not read");
+    };
+    stats.eval();
+    let made = match run::guarded(|| simplesl::variable::Variable::of_type(&t)) {
+        Ok(v) => v,
+        Err(c) => return fail(format!("C10:panic:{}", c.sig()), format!("Variable::of_type({tt}) panicked")),
+    };
+    let Some(v) = made else {
+        stats.label("type without a default value");
+        return Verdict::Pass;
+    };
+    stats.nontrivial(tt);
+    stats.label("default value checked against its type");
+    if let Some(why) = crate::ty::not_inhabits(&v, &h, 0) {
+        return fail("C10:default:membership", format!("the default value of {tt} is {}, which does not belong to it: {why}", crate::ty::show(&v)));
+    }
+    if !tri!(matches(&v.as_type(), &t), "matches") {
+        return fail("C10:default:matches", format!("the default value of {tt} has type {}, which does not match {tt}", Ty::from_real(&v.as_type()).print()));
+    }
+    // the filler of an exhausted filter for the type, tested by the language
+    let text = format!("it := [] ~ ? {tt}; r := it().1; n := if q: {tt} = r {{ 1 }} else {{ 0 }}; n");
+    match crate::exec::run_program(&text, false).outcome {
+        run::Outcome::Rejected(_) => {}
+        run::Outcome::Value(simplesl::variable::Variable::Int(1)) => {}
+        o => return fail("C10:default:filler", format!("`{text}`: {} (the filler of an exhausted filter for {tt} does not pass the test for {tt})", o.short())),
+    }
+    Verdict::Pass
+}
+
+fn default_cases() -> Vec<Json> {
+    let mut out = vec![];
+    for o in crate::genr::matrix::CATALOGUE {
+        let t = o.ty;
+        let paren = if t.contains('|') && !t.contains("->") || t.starts_with("mut ") { format!("({t})") } else { t.to_string() };
+        for text in [t.to_string(), format!("mut {paren}"), format!("[{t}]"), format!("(int, {t})"), format!("struct{{f: {t}}}"), format!("[mut {paren}]"), format!("()->{t}"), format!("mut {paren}|()"), format!("({t}, mut {paren})")] {
+            out.push(json!({"kind": "default", "t": text}));
+        }
+    }
+    out
 }
 
 fn membership_cases() -> Vec<Json> {
@@ -336,7 +388,8 @@ fn membership_cases() -> Vec<Json> {
             }
             let mut turned = values.clone();
             turned.rotate_left(values.len() / 2);
-            cases.push(json!({"kind": "membership", "s": s, "t": t, "values": values, "form": (k + j) % 4}));
+            cases.push(json!({"kind": "membership", "s": s, "t": t, "values": values, "form": (k + j) % 5}));
+            cases.push(json!({"kind": "membership", "s": s, "t": t, "values": values, "form": 4}));
             cases.push(json!({"kind": "membership", "s": s, "t": t, "values": turned, "form": (k + j + 1) % 2}));
         }
     }
@@ -366,6 +419,9 @@ pub fn run(session: &Session) -> i32 {
     let membership = membership_cases();
     session.set_extra("membership_cases", json!(membership.len()));
     cases.extend(membership);
+    let defaults = default_cases();
+    session.set_extra("default_value_cases", json!(defaults.len()));
+    cases.extend(defaults);
     if !session.stopped() {
         session.run_enum(&C10, cases);
     }
